@@ -24,7 +24,7 @@ Floats == { VFloat(F15), VFloat(<<128,0,0,0,0,0,0,0>>), VFloat(<<0,0,0,0,0,0,0,0
             VFloat(<<127,239,255,255,255,255,255,255>>), VFloat(<<255,239,255,255,255,255,255,255>>),
             VFloat(<<67,64,0,0,0,0,0,0>>), VFloat(<<68,21,175,29,120,181,140,64>>), VFloat(<<0,16,0,0,0,0,0,0>>) }
 Atoms == { A(<<>>), A(<<97>>), A(<<111,107>>), A(<<195,169>>), A(<<226,130,172>>), A(<<240,159,152,128>>),
-           A(<<195,191,97>>), A(Rep(97, 255)), A(Rep(97, 256)), A(Rep(98, 127) \o <<195,169>>) }
+           A(<<195,191,97>>), A(<<195,131,194,169>>), A(<<195,130,194,181,120>>), A(Rep(97, 255)), A(Rep(97, 256)), A(Rep(98, 127) \o <<195,169>>) }
           \cup (IF Heavy THEN {A(Rep(97, 65535))} ELSE {A(Rep(97, 1000))})
 Bins == { VBin(<<>>), VBin(<<1,2,3>>), VBin(Rep(7, 40)), VBin(<<104,105>>), VBin(Rep(0, 300)), VBits(<<1,128>>, 1), VBits(<<254>>, 7),
           VBits(<<255,224>>, 3), VBits(<<1,2,240>>, 4), VBits(<<128>>, 1), VBits(<<192>>, 2), VBits(<<248>>, 5), VBits(<<252>>, 6) }
